@@ -3,12 +3,15 @@ package main
 // C14 — accessory ids / instance ids / HAP JSON shape: correspondence with HcModel/Ids.lean + direct oracles.
 
 import (
+	"bytes"
 	"encoding/json"
 	"fmt"
 	"math/rand"
+	"net/http"
 	"net/http/httptest"
 	"sort"
 	"strings"
+	"sync"
 
 	"github.com/brutella/hc/accessory"
 	"github.com/brutella/hc/characteristic"
@@ -496,6 +499,8 @@ func checkC14(c *Ctx) {
 	c.Assume("service and characteristic objects are not shared between accessories nor listed twice (hypothesis of the property); the excluded case is executed and reported under coverage.excluded_case_shared_objects")
 	c.Assume("uint64 wrap-around of id counters (2^64 assignments) is not modelled")
 
+	c14Renumber(c)
+	c14ConcurrentJSON(c)
 	// ---------------- corpus: explicit id then automatic id (recorded behaviour: the automatic one is rejected)
 	corpus := []idPlan{
 		{Accs: []accPlan{{Ctor: 6, ID: 1}, {Ctor: 4}, {Ctor: 5}}, Ops: []idOp{{true, 0}, {true, 1}, {true, 2}}},
@@ -721,4 +726,174 @@ func bucketN(n int) int {
 		}
 	}
 	return 99999
+}
+
+// c14Renumber (direct oracle): ids depend only on construction order, also when an accessory that was already numbered
+// once (added to a container, or rejected by one) gets more services / characteristics and enters a container again —
+// every NewIPTransport creates a new container, so after a restart of the application code this is the normal case.
+func c14Renumber(c *Ctx) {
+	ctors := []func(accessory.Info) *accessory.Accessory{
+		func(i accessory.Info) *accessory.Accessory { return accessory.NewSwitch(i).Accessory },
+		func(i accessory.Info) *accessory.Accessory { return accessory.NewLightbulb(i).Accessory },
+		func(i accessory.Info) *accessory.Accessory { return accessory.NewOutlet(i).Accessory },
+		func(i accessory.Info) *accessory.Accessory { return accessory.NewThermostat(i, 20, 10, 30, 1).Accessory },
+		func(i accessory.Info) *accessory.Accessory { return accessory.NewTelevision(i).Accessory },
+	}
+	for i := 0; i < c.Pick(60, 600); i++ {
+		id := c.CaseID("renumber", i)
+		if c.Skip(id) {
+			continue
+		}
+		r := c.CaseRng("renumber", i)
+		k := r.Intn(len(ctors))
+		grow := func(a *accessory.Accessory, r *rand.Rand) {
+			for n := 0; n < 1+r.Intn(3); n++ {
+				if r.Intn(2) == 0 {
+					a.Services[r.Intn(len(a.Services))].AddCharacteristic(characteristic.NewBrightness().Characteristic)
+				} else {
+					sv := service.New("F0" + fmt.Sprint(n))
+					sv.AddCharacteristic(characteristic.NewOn().Characteristic)
+					a.AddService(sv)
+				}
+			}
+		}
+		seedG := r.Int63()
+		// (1) numbered once, grown, numbered again in a fresh container
+		a := ctors[k](accessory.Info{Name: "A"})
+		first := accessory.NewContainer()
+		if r.Intn(2) == 0 {
+			first.AddAccessory(ctors[(k+1)%len(ctors)](accessory.Info{Name: "B", ID: 1})) // so that a (automatic id 1) is rejected but numbered
+		}
+		first.AddAccessory(a)
+		grow(a, rand.New(rand.NewSource(seedG)))
+		a.ID = 0
+		second := accessory.NewContainer()
+		second.AddAccessory(a)
+		// (2) reference: the same shape built fresh and added once
+		b := ctors[k](accessory.Info{Name: "A"})
+		grow(b, rand.New(rand.NewSource(seedG)))
+		ref := accessory.NewContainer()
+		ref.AddAccessory(b)
+		in := map[string]interface{}{"constructor": k, "grow_seed": seedG}
+		for _, p := range idProblems(second) {
+			c.Violate("attribute database ids: "+p+" (accessory numbered a second time after it grew)", id, in, "unique non-zero ids", accView(a))
+		}
+		// (an object that is numbered a second time continues from its own counter — recorded behaviour, modelled in
+		// Ids.lean: ids are `range' idCount n`; the fresh build `b` must be numbered from 1)
+		for _, p := range idProblems(ref) {
+			c.Violate("attribute database ids: "+p, id, in, "unique non-zero ids", accView(b))
+		}
+		if len(b.Services) > 0 && b.Services[0].ID != 1 {
+			c.Violate("instance ids of a freshly built accessory do not start at 1", id, in, "1", fmt.Sprint(b.Services[0].ID))
+		}
+		c.Count(fmt.Sprint("renumber/", k, seedG), true, "stream:renumber")
+	}
+}
+
+// stallWriter is an http.ResponseWriter whose n-th Write blocks until released (a slow controller).
+type stallWriter struct {
+	h       http.Header
+	code    int
+	buf     bytes.Buffer
+	writes  int
+	stallAt int
+	stalled chan struct{}
+	release chan struct{}
+}
+
+func (w *stallWriter) Header() http.Header { return w.h }
+func (w *stallWriter) WriteHeader(c int)   { w.code = c }
+func (w *stallWriter) Write(b []byte) (int, error) {
+	w.writes++
+	if w.writes == w.stallAt {
+		close(w.stalled)
+		<-w.release
+	}
+	return w.buf.Write(b)
+}
+
+// c14ConcurrentJSON (direct oracle): the attribute database served to one controller is well-formed and complete also
+// when other controllers' requests are answered while its answer is still being written piece by piece.
+func c14ConcurrentJSON(c *Ctx) {
+	for i := 0; i < c.Pick(6, 40); i++ {
+		id := c.CaseID("concurrent-json", i)
+		if c.Skip(id) {
+			continue
+		}
+		r := c.CaseRng("concurrent-json", i)
+		accs := c09Accessories(r, 10+r.Intn(25))
+		f, addr, err := verifiedFixture(c, accs)
+		if err != nil {
+			c.Violate("fixture cannot be built", id, nil, "fixture", err.Error())
+			continue
+		}
+		want, _ := json.Marshal(f.container)
+		sw := &stallWriter{h: http.Header{}, code: 200, stallAt: 1 + r.Intn(4), stalled: make(chan struct{}), release: make(chan struct{})}
+		done := make(chan struct{})
+		go func() {
+			defer close(done)
+			req := httptest.NewRequest("GET", "/accessories", nil)
+			req.RemoteAddr = addr
+			safely(func() { f.server.Mux.ServeHTTP(sw, req) })
+		}()
+		select {
+		case <-sw.stalled:
+		case <-done: // answer shorter than stallAt pieces
+		}
+		// other controllers are served meanwhile: long and short answers, refusals
+		var all []string
+		for _, a := range accs {
+			for _, s := range a.GetServices() {
+				for _, ch := range s.GetCharacteristics() {
+					all = append(all, fmt.Sprintf("%d.%d", a.ID, ch.ID))
+				}
+			}
+		}
+		var wg sync.WaitGroup
+		for g := 0; g < 48; g++ {
+			wg.Add(1)
+			gr := rand.New(rand.NewSource(r.Int63()))
+			go func(g int) {
+				defer wg.Done()
+				for k := 0; k < 6; k++ {
+					n := 1 + gr.Intn(len(all))
+					ids := make([]string, n)
+					for j := range ids {
+						ids[j] = all[gr.Intn(len(all))]
+					}
+					a := addr
+					if g%5 == 0 {
+						a = fmt.Sprintf("10.0.14.%d:1", g) // an unverified connection: refused with the constant body
+					}
+					f.Do(a, "GET", "/characteristics?id="+strings.Join(ids, ","), "", nil)
+				}
+			}(g)
+		}
+		wg.Wait()
+		select {
+		case <-done:
+		default:
+			close(sw.release)
+			<-done
+		}
+		f.Close()
+		got := bytes.TrimSpace(sw.buf.Bytes())
+		if !jsonEqual(got, want) {
+			p := 0
+			for p < len(got) && p < len(want) && got[p] == want[p] {
+				p++
+			}
+			c.Violate("attribute database served while other requests are answered concurrently is not the accessory's database (not well-formed JSON)", id,
+				map[string]interface{}{"accessories": len(accs), "stalled_at_piece": sw.stallAt, "concurrent_requests": 48 * 6},
+				fmt.Sprintf("%d bytes of well-formed JSON", len(want)), fmt.Sprintf("%d bytes, differs from byte %d: …%s", len(got), p, trunc(string(got[max(0, p-20):min(len(got), p+60)]), 100)))
+		}
+		c.Count(fmt.Sprint("concurrent-json/", len(accs), sw.stallAt), true, "stream:concurrent-json")
+	}
+}
+
+func max(a, b int) int {
+	if a > b {
+		return a
+	}
+	return b
 }
